@@ -168,6 +168,9 @@ def real_run(c, outputfile=None):
             "rows": [[float(x) for x in row] for row in res.values.tolist()], "frame": res}
 
 
+real_run = common.with_history(real_run)
+
+
 # ----------------------------------------------------------------------------- independent oracles (Spec side)
 
 def is_square(n):
@@ -378,9 +381,16 @@ def wave_sweep(run):
     return bad
 
 
+def sibling(rng, c):
+    """same frame count, labels, composition, box, wave vectors — other positions"""
+    s = dict(c)
+    s["pos"] = [[[dec(rng, -1.5, float(c["L"][j]) + 1.5, 3) for j in range(c["d"])] for _ in range(c["N"])] for _ in range(c["T"])]
+    return s
+
+
 def correspond(run):
-    n = 60 if run.tier == "quick" else 2500
-    cases = common.load_corpus(PROP) + [gen_case(run.rng, run.tier) for _ in range(n)]
+    n = 160 if run.tier == "quick" else 2500
+    cases = common.load_corpus(PROP) + common.add_siblings(run.rng, [gen_case(run.rng, run.tier) for _ in range(n)], sibling)
     dis, mon = run_cases(run, cases)
     wbad = wave_sweep(run)
     run.coverage["traces_validated_against_impl"] = run.coverage["evaluations"]
